@@ -20,7 +20,8 @@
 //!  * `secure-despite-broken-link` (iv): fresh validator, a record is Secure although in this run no
 //!    exchange presented, complete and with a genuine RRSIG, one of the RRsets on its chain (DNSKEY
 //!    and DS of every zone from the root down, and the RRset's own RRSIG).
-//!  * `honest-rejected`: honest upstream, non-bogus hierarchy, yet error / Bogus (completeness symptom).
+//!  * `honest-rejected`: honest upstream, non-bogus hierarchy, yet error / Bogus (completeness symptom;
+//!    main.rs counts it as information and never reports it: not part of C07's statement).
 //!  * `validator-panic`: the validator panicked.
 //!
 //! Don't-cares (never alarm): anything that ends in `Err` (other than Nsec{Insecure}) or in Ok with a
